@@ -1492,7 +1492,7 @@ def run_shard(ctx):
     if ctx.elapsed() > 0.3 * ctx.budget_s and k >= len(PAR_FIRST):
       break
     g = gen_par_group(ctx.rng(PAR_GI + k), k, ctx.tier)
-    run_group(rep, PAR_GI + k, g, 10 if ctx.tier == 'quick' else 34)
+    run_group(rep, PAR_GI + k, g, 8 if ctx.tier == 'quick' else 34)
   # groups 0..len(FIRST)-1 are the fixed coverage schedule, the rest is random
   for gi in range(n_groups):
     if not ctx.mine(gi):
